@@ -191,12 +191,24 @@ pub(crate) static mut SYNC_N: usize = 0;
 pub(crate) static mut SYNC_FAIL: bool = false;
 pub(crate) static mut SYNC_QUEUE_LEN: usize = 0;
 pub(crate) static mut LOGP: *const Log = std::ptr::null();
+pub(crate) static mut SYNC_APPENDABLE: bool = false;
+// File::try_clone (dup(2), foreign) by contract: another handle on the same file. The code as it is does not call it; declared
+// so that an edit that syncs through a second handle is decided instead of rejected.
+pub(crate) fn stub_try_clone(f: &std::fs::File) -> std::io::Result<std::fs::File> {
+	use std::os::fd::{AsRawFd, FromRawFd};
+	Ok(unsafe { std::fs::File::from_raw_fd(f.as_raw_fd() + 100) })
+}
 // std::fs::File::sync_data by contract: fdatasync succeeded, or failed
 pub(crate) fn stub_sync_data(_f: &std::fs::File) -> std::io::Result<()> {
 	unsafe {
 		SYNC_N += 1;
 		// the read queue must not already hold (or be in the middle of receiving) the file that is being synced
 		SYNC_QUEUE_LEN = if (*LOGP).read_queue.is_locked_exclusive() { usize::MAX } else { (*LOGP).read_queue.read().len() };
+		// can the log worker still append a record to the file while / after it is synced?  Not if this thread holds the
+		// writer slot exclusively or has already taken the file out of it.
+		if !(*LOGP).appending.is_locked_exclusive() && (*LOGP).appending.read().is_some() {
+			SYNC_APPENDABLE = true;
+		}
 		if SYNC_FAIL {
 			Err(std::io::Error::from_raw_os_error(5))
 		} else {
@@ -204,7 +216,7 @@ pub(crate) fn stub_sync_data(_f: &std::fs::File) -> std::io::Result<()> {
 		}
 	}
 }
-writer_harness!(#[kani::unwind(4)] #[kani::stub(std::fs::File::sync_data, stub_sync_data)] #[kani::stub(<std::os::fd::OwnedFd as std::ops::Drop>::drop, stub_owned_fd_drop)] u32_log_file_synced_before_it_becomes_readable, {
+writer_harness!(#[kani::unwind(4)] #[kani::stub(std::fs::File::sync_data, stub_sync_data)] #[kani::stub(std::fs::File::try_clone, stub_try_clone)] #[kani::stub(<std::os::fd::OwnedFd as std::ops::Drop>::drop, stub_owned_fd_drop)] u32_log_file_synced_before_it_becomes_readable, {
 	use std::os::fd::FromRawFd;
 	let mut log = std::mem::ManuallyDrop::new(mk_log());
 	let sync: bool = kani::any();
@@ -220,10 +232,13 @@ writer_harness!(#[kani::unwind(4)] #[kani::stub(std::fs::File::sync_data, stub_s
 		// the failing-sync path drops the File inside flush_one: close(2) is replaced by a recorder (stub_owned_fd_drop)
 		SYNC_FAIL = kani::any();
 		SYNC_QUEUE_LEN = 0;
+		SYNC_APPENDABLE = false;
 		LOGP = &*log as *const Log;
 	}
 	let r = ok(log.flush_one(min_size));
 	let queued = log.read_queue.read().len();
+	// whatever was synced: a record appended after the sync started would be handed over (and applied) unsynced
+	assert!(!unsafe { SYNC_APPENDABLE }, "U32.flush_one.no_record_can_be_appended_to_the_file_once_its_sync_has_started");
 	if size > min_size && sync && unsafe { SYNC_FAIL } {
 		// the records of a log whose sync failed never become readable: nothing of it can be applied to the tables
 		assert!(r.is_none() && queued == 0, "U32.flush_one.a_failed_sync_leaves_the_log_unreadable");
@@ -395,6 +410,7 @@ pub(crate) fn stub_sync_data_sees_bytes(_f: &std::fs::File) -> std::io::Result<(
 writer_harness!(#[kani::unwind(12)]
 	#[kani::stub(std::fs::File::sync_data, stub_sync_data_sees_bytes)]
 	#[kani::stub(<std::fs::File as std::io::Write>::write, stub_file_write)]
+	#[kani::stub(std::fs::File::try_clone, stub_try_clone)]
 	#[kani::stub(<std::os::fd::OwnedFd as std::ops::Drop>::drop, stub_owned_fd_drop)]
 	u51_flush_one_syncs_buffered_bytes, {
 	use std::{io::Write, os::fd::FromRawFd};
